@@ -199,7 +199,7 @@ def rule_keys(ck, fi):
         nonlocal n
         if key in table:
             n += 1
-            ck.ob("C47.cgi-keys", fi, table[key], bool(pred(table[key])), "%s %s" % (key, what), construct="environ[%s] = %s" % (key, q.normalize_construct(table[key], q.local_names(fi.node))))
+            ck.ob("C47.cgi-keys", fi, table[key], bool(pred(expand(fi, table[key]))), "%s %s" % (key, what), construct="environ[%s] = %s" % (key, q.normalize_construct(table[key], q.local_names(fi.node))))
 
     prov("REQUEST_METHOD", lambda v: q.dotted(v) == req + ".method", "is the request method")
     prov("REMOTE_ADDR", lambda v: q.dotted(v) == req + ".remote_ip", "is the peer address of the request")
@@ -327,27 +327,45 @@ def rule_response(ck):
     fi = ck.func(W, HR)
     facts = must_facts(fi.cfg)
     n = 0
-    # default-header insertions: in handle_request itself or in a same-class helper it calls (one level)
-    def is_ins(x):
-        return isinstance(x, ast.Call) and q.call_attr(x) == "append" and isinstance(x.func, ast.Attribute) and x.args and isinstance(x.args[0], ast.Tuple) and len(x.args[0].elts) == 2 and isinstance(x.args[0].elts[0], ast.Constant) and isinstance(x.args[0].elts[0].value, str)
+    # the application's header list L: what is copied into the HTTPHeaders handed to write_headers
+    wh_ = [c for c in q.calls(fi.node) if q.call_attr(c) == "write_headers"]
+    ck.floor("C47.response", len(wh_), 1, "write_headers calls")
+    Hs = {q.dotted(w.args[1] if len(w.args) > 1 else q.kwarg(w, "headers")) for w in wh_}
+    Lc = set()
+    for l in q.walk_body(fi.node):
+        if isinstance(l, ast.For) and (any(isinstance(c, ast.Call) and isinstance(c.func, ast.Attribute) and c.func.attr in ("add", "__setitem__", "setdefault") and q.dotted(c.func.value) in Hs for st in l.body for c in q.calls(st))
+                                       or any(isinstance(x, ast.Subscript) and isinstance(x.ctx, ast.Store) and q.dotted(x.value) in Hs for st in l.body for x in ast.walk(st))):
+            Lc.add(q.dotted(l.iter))
+    for a in q.walk_body(fi.node):
+        if isinstance(a, (ast.Assign, ast.AnnAssign)) and isinstance(a.value, ast.Call) and q.call_attr(a.value) == "HTTPHeaders" and a.value.args and set(q.assigned_paths(a)) & Hs:
+            Lc.add(q.dotted(a.value.args[0]))
+        if isinstance(a, ast.Call) and isinstance(a.func, ast.Attribute) and a.func.attr == "update" and q.dotted(a.func.value) in Hs and a.args:
+            Lc.add(q.dotted(a.args[0]))
+    if len(Lc) != 1 or None in Lc:
+        raise AnalysisError("C47.response: the application's header list copied into the response headers is not a single variable (%s)" % sorted(map(str, Lc)))
+    L0 = next(iter(Lc))
+
+    # default-header insertions into L: in handle_request itself or in a same-class helper it calls (one level)
+    def ins_on(listname):
+        return lambda x: isinstance(x, ast.Call) and isinstance(x.func, ast.Attribute) and x.func.attr in ("append", "insert", "extend") and q.dotted(x.func.value) == listname and x.args
 
     sites = []   # (function holding the insertion, its cfg node, call, node in handle_request that runs it, name->expr map into handle_request)
-    for nd, c in fi.cfg.find(is_ins):
+    for nd, c in fi.cfg.find(ins_on(L0)):
         sites.append((fi, nd, c, nd, None))
     for nd, call in fi.cfg.find(lambda x: isinstance(x, ast.Call)):
         h = callee(ck.repo, fi, call)
         if h is None or h.node is fi.node:
             continue
-        ins = h.cfg.find(is_ins)
-        if ins:
-            mp = arg_map(h, call)
-            if mp is None:
-                raise AnalysisError("C47.response: cannot map the arguments of %s" % q.unparse(call.func))
-            ck.use(h)
-            for nd2, c2 in ins:
-                sites.append((h, nd2, c2, nd, mp))
-    ck.floor("C47.response", len(sites), 3, "default header insertions reachable from handle_request")
-    wchunks = [q.kwarg(w, "chunk") or (w.args[2] if len(w.args) > 2 else None) for w in q.calls(fi.node) if q.call_attr(w) == "write_headers"]
+        mp = arg_map(h, call)
+        if mp is None:
+            continue
+        for p_, a_ in mp.items():
+            if q.dotted(a_) == L0:
+                ck.use(h)
+                for nd2, c2 in h.cfg.find(ins_on(p_)):
+                    sites.append((h, nd2, c2, nd, mp))
+    ck.floor("C47.response", len(sites), 1, "default header insertions into the application's header list")
+    wchunks = [q.kwarg(w, "chunk") or (w.args[2] if len(w.args) > 2 else None) for w in wh_]
 
     def to_caller(mp, name):
         """expression in handle_request that a name of the helper stands for"""
@@ -355,39 +373,70 @@ def rule_response(ck):
             return name
         return q.dotted(mp[name]) if name in mp else None
 
+    def lowered_set(sfi, sv, recv):
+        if sv == recv:
+            return False, True   # the test looks into the list of (name, value) pairs itself: a str is never an element of it
+        b = unique_def(sfi, sv) if sv.isidentifier() else None
+        if b is None:
+            raise AnalysisError("C47.response: the set %s tested for header presence has no unique definition" % sv)
+        low = isinstance(b, (ast.SetComp, ast.ListComp, ast.GeneratorExp)) and isinstance(b.elt, ast.Call) and q.call_attr(b.elt) == "lower" or (isinstance(b, ast.Call) and q.dotted(b.func) in ("set", "frozenset", "list", "tuple") and any(isinstance(c2, ast.Call) and q.call_attr(c2) == "lower" for c2 in ast.walk(b)))
+        src = [q.dotted(g.iter) for g in getattr(b, "generators", [])] or [q.dotted(x) for x in ast.walk(b) if isinstance(x, ast.Name)]
+        empty = (isinstance(b, ast.Call) and q.dotted(b.func) in ("set", "list") and not b.args) or (isinstance(b, (ast.List, ast.Set)) and not b.elts)
+        if empty:
+            # filled by a loop: every S.add(x) / S.append(x) decides
+            adds = [(c2, l2) for l2 in q.walk_body(sfi.node) if isinstance(l2, ast.For) for st2 in l2.body for c2 in q.calls(st2) if isinstance(c2.func, ast.Attribute) and c2.func.attr in ("add", "append") and q.dotted(c2.func.value) == sv and c2.args]
+            if not adds:
+                raise AnalysisError("C47.response: how the set %s is filled is not recognised" % sv)
+            low = all(isinstance(c2.args[0], ast.Call) and q.call_attr(c2.args[0]) == "lower" for c2, _l in adds)
+            src = [q.dotted(l2.iter) for _c, l2 in adds]
+        elif not low and not isinstance(b, (ast.SetComp, ast.ListComp, ast.GeneratorExp, ast.Call)):
+            raise AnalysisError("C47.response: definition of %s (%s) not recognised" % (sv, q.unparse(b)))
+        return bool(low), recv in src
+
     appends = []   # (anchor node in handle_request, call) for the ordering rule below
-    applists = set()
+    applists = {L0}
+    cl_values = []   # (function, value expression) of every default Content-Length
     for sfi, nd, c, anchor, mp in sites:
         appends.append((anchor, c))
         recv = q.dotted(c.func.value)
-        applists.add(to_caller(mp, recv) if recv else None)
-        hname = c.args[0].elts[0].value
-        hl = hname.lower()
+        el = c.args[-1]
+        if c.func.attr == "extend" or not (isinstance(el, ast.Tuple) and len(el.elts) == 2):
+            raise AnalysisError("C47.response: insertion %s into the header list is not an append of a (name, value) pair" % q.unparse(c))
+        N, V = el.elts
         F = must_facts(sfi.cfg)[nd.id]
-        guard = [t for t, pol in F if not pol and t.startswith(repr(hl) + " in ")]
-        if not guard and any(hl in t.lower() for t, _pol in F):
+        if isinstance(N, ast.Constant) and isinstance(N.value, str):
+            hname = N.value
+            want = repr(hname.lower()) + " in "
+            if hname.lower() == "content-length":
+                cl_values.append((sfi, V, mp))
+        elif isinstance(N, ast.Name):
+            hname = "<%s>" % N.id
+            want = "%s.lower() in " % N.id
+            # the pairs come from a table of defaults built in the same function: its Content-Length entry is checked below
+            for t_ in ast.walk(sfi.node):
+                if isinstance(t_, ast.Tuple) and len(t_.elts) == 2 and isinstance(t_.elts[0], ast.Constant) and str(t_.elts[0].value).lower() == "content-length":
+                    cl_values.append((sfi, t_.elts[1], mp))
+        else:
+            raise AnalysisError("C47.response: name of the inserted default header %s not recognised" % q.unparse(N))
+        guard = [t for t, pol in F if not pol and t.startswith(want)]
+        if not guard and any((hname.strip("<>").lower() in t.lower()) for t, _pol in F):
             raise AnalysisError("C47.response: the presence test guarding the default %s is not of a recognised form" % hname)
         n += 1
-        ck.ob("C47.response", sfi, c, bool(guard), "default %s is added only under a '%s not in <app header names>' test (the application's header is never overridden or duplicated)" % (hname, hl))
+        ck.ob("C47.response", sfi, c, bool(guard), "default %s is added only under a 'lower-cased name not in <app header names>' test (the application's header is never overridden or duplicated)" % hname)
         for t in guard:
-            sv = t.split(" in ", 1)[1]
-            b = unique_def(sfi, sv) if sv.isidentifier() else None
-            if b is None:
-                raise AnalysisError("C47.response: the set %s tested for %s has no unique definition" % (sv, hname))
-            lowered = isinstance(b, (ast.SetComp, ast.ListComp, ast.GeneratorExp)) and isinstance(b.elt, ast.Call) and q.call_attr(b.elt) == "lower" or (isinstance(b, ast.Call) and q.dotted(b.func) in ("set", "frozenset", "list", "tuple") and any(isinstance(c2, ast.Call) and q.call_attr(c2) == "lower" for c2 in ast.walk(b)))
-            n += 1
-            ck.ob("C47.response", sfi, c, bool(lowered), "the absence test for %s looks at the lower-cased set of application header names (%s)" % (hname, sv))
-            # and that set is built from the list the default is appended to
-            src = [q.dotted(g.iter) for g in getattr(b, "generators", [])] or [q.dotted(x) for x in ast.walk(b) if isinstance(x, ast.Name)]
-            n += 1
-            ck.ob("C47.response", sfi, c, recv in src, "the names tested are those of the list the default is appended to (%s)" % recv)
-        if hl == "content-length":
-            v = c.args[0].elts[1]
-            bodyv = [q.dotted(x.args[0]) for x in ast.walk(expand(sfi, v)) if isinstance(x, ast.Call) and q.is_call(x, "len") and x.args]
-            if len(bodyv) != 1 or bodyv[0] is None:
-                raise AnalysisError("C47.response: default Content-Length value %s not recognised" % q.unparse(v))
-            n += 1
-            ck.ob("C47.response", sfi, c, any(w is not None and q.dotted(w) == to_caller(mp, bodyv[0]) for w in wchunks), "the default Content-Length is the length of the body that is actually written")
+            sv = t[len(want):]
+            low, from_list = lowered_set(sfi, sv, recv)
+            n += 2
+            ck.ob("C47.response", sfi, c, low, "the absence test for %s looks at the lower-cased set of application header names (%s)" % (hname, sv))
+            ck.ob("C47.response", sfi, c, from_list, "the names tested are those of the list the default is appended to (%s)" % recv)
+    if not cl_values:
+        raise AnalysisError("C47.response: default Content-Length value not found")
+    for sfi, v, mp in cl_values:
+        bodyv = [q.dotted(x.args[0]) for x in ast.walk(expand(sfi, v)) if isinstance(x, ast.Call) and q.is_call(x, "len") and x.args]
+        if len(bodyv) != 1 or bodyv[0] is None:
+            raise AnalysisError("C47.response: default Content-Length value %s not recognised" % q.unparse(v))
+        n += 1
+        ck.ob("C47.response", sfi, v, any(w is not None and q.dotted(w) == to_caller(mp, bodyv[0]) for w in wchunks), "the default Content-Length is the length of the body that is actually written")
     # multimap-preserving transfer of the application's header list into the HTTPHeaders handed to write_headers
     wh0 = [c for c in q.calls(fi.node) if q.call_attr(c) == "write_headers"]
     ck.floor("C47.response", len(wh0), 1, "write_headers calls")
@@ -444,7 +493,7 @@ def rule_response(ck):
             for nd in fi.cfg.nodes_for(l.iter):
                 for and_, c in appends:
                     n += 1
-                    ck.ob("C47.response", fi, c, nd.id in _reach(fi.cfg, and_), "the default %s is inserted before the list is copied into the response headers" % c.args[0].elts[0].value)
+                    ck.ob("C47.response", fi, c, nd.id in _reach(fi.cfg, and_), "the default %s is inserted before the list is copied into the response headers" % q.unparse(c.args[-1].elts[0]))
     # body bytes: app chunks -> response list -> b"".join -> utf8 -> write_headers(chunk=...), nothing lossy in between
     from ..x_exact import check_exact
     for w in wh0:
@@ -470,9 +519,21 @@ def rule_response(ck):
                 hs = [x.id for x in v.args if isinstance(x, ast.Name) and x.id in helpers and any(q.is_call(c2, "next") for c2 in q.calls(helpers[x.id].node))]
                 if hs:
                     pulls.append((a.targets[0].id, helpers[hs[0]]))
+                else:
+                    # functools.partial(next, <iterator>, <sentinel>) is the closure `lambda: next(it, sentinel)`
+                    for x in v.args:
+                        d = resolve(fi, x)
+                        if isinstance(d, ast.Call) and q.dotted(d.func) in ("functools.partial", "partial") and d.args and q.dotted(d.args[0]) == "next":
+                            pulls.append((a.targets[0].id, d))
     if not pulls:
         raise AnalysisError("C47.response: the step that pulls the next chunk from the application iterable was not found (unknown idiom)")
     for chunkv, h in pulls:
+        if isinstance(h, ast.Call):   # partial(next, it[, sentinel])
+            if len(h.args) < 3:
+                raise AnalysisError("C47.response: partial(next, it) without a default lets StopIteration escape into the executor future")
+            n += 1
+            ck.ob("C47.response", fi, h.args[2], q.is_const(h.args[2], None), "the end-of-iteration sentinel is None, which no application chunk can equal (an empty bytestring is a legal chunk)")
+            continue
         ck.use(h)
         sentinels = []
         hpm = q.parent_map(h.node)
